@@ -871,6 +871,9 @@ func SolveAll(obls []*Obligation, timeoutS int, workers int, keepScripts bool) {
 		go func() {
 			defer wg.Done()
 			for ob := range ch {
+				if ob.Presolved && ob.Result != nil {
+					continue
+				}
 				g := group(ob)
 				mu.Lock()
 				n := failed[g]
